@@ -35,8 +35,8 @@ impl SingleQuery {
             format!("?{}", self.var_order.len())
         } else {
             for i in 0..self.var_order.len() {
-                let p = &self.var_order[i].value;
-                if value.eq(p) {
+                let p = &self.var_order[i];
+                if !p.internal && value.eq(&p.value) {
                     return format!("?{}", i + 1);
                 }
             }
